@@ -356,7 +356,7 @@ def replay(engine, infile, nshards=None, timeout=30, env=None, rlimit_as=None, r
             elif inflight is not None:
                 with lock:
                     out.total += 1
-                    out.crashes.append((inflight, err[-4000:]))
+                    out.crashes.append((inflight, (err[:1500] + "\n...\n" + err[-2500:]) if len(err) > 4000 else err))
                 after = inflight
             else:
                 with lock:
@@ -403,8 +403,14 @@ def replay(engine, infile, nshards=None, timeout=30, env=None, rlimit_as=None, r
     # child deaths are re-run in isolation as well: a death that does not happen again (the machine ran out of
     # threads or memory, a signal from outside) is not a verdict; only the first RETRY_CRASHES are re-run, and
     # the rest is believed only when those were reproduced
-    crashed = list(out.crashes)
-    reproduced, passed_now = [], []
+    # a Go panic raised inside wrgl's own code is the code's doing whether or not the schedule that led to it
+    # comes back; only deaths WITHOUT such a panic (the runtime giving up, a signal) need to happen again
+    def own_panic(text):
+        return ("panic: " in text or "fatal error: all goroutines are asleep" in text or "concurrent map" in text) and \
+            "github.com/wrgl/wrgl/" in text and "out of memory" not in text and "newosproc" not in text
+    sure = [c for c in out.crashes if own_panic(c[1])]
+    crashed = [c for c in out.crashes if not own_panic(c[1])]
+    reproduced, passed_now = list(sure), []
 
     def recrash(item):
         idx, text = item
@@ -434,8 +440,8 @@ def replay(engine, infile, nshards=None, timeout=30, env=None, rlimit_as=None, r
     for t in cths:
         t.join()
     rest = crashed[RETRY_CRASHES:]
-    if crashed:
-        if rest and len(reproduced) * 10 < len(crashed[:RETRY_CRASHES]) * 9:
+    if out.crashes:
+        if rest and (len(reproduced) - len(sure)) * 10 < len(crashed[:RETRY_CRASHES]) * 9:
             # most of the re-run deaths did not happen again: the others are not believed either
             out.errors.append((-1, "%d child deaths were not re-run and %d of the %d re-run ones did not happen again" %
                                (len(rest), len(passed_now), len(crashed[:RETRY_CRASHES]))))
